@@ -47,6 +47,11 @@ func c06Step(x *engine.Exec) []engine.Failure {
 	}
 	feeExp, _ := ref.onSlash(v, f, prev.Time)
 	x.Cnt.Inc("slash.checked")
+	for den, sh := range prev.Vals[v].ValShares {
+		if a, ok := prev.Assets[den]; ok && sh.Sign() > 0 && prev.Time.Before(a.RewardStartTime) {
+			x.Cnt.Inc("slash.validator_with_warmup_asset_stake")
+		}
+	}
 	if len(prev.Vals[v].ValShares) >= 2 {
 		x.Cnt.Inc("slash.validator_with_several_assets")
 	}
@@ -154,6 +159,11 @@ func init() {
 				opBlock(1),
 			}
 			s3 := []world.Op{opDel(0, 0, "aaa", big30), opDel(1, 1, "aaa", "7"), opDel(1, 0, "aaa", "1")}
+			// an asset that is still warming up is slashed like any other (no block before the slash: no module stake yet either)
+			s4 := []world.Op{opDel(0, 0, "ccc", "1000"), opDel(1, 1, "ccc", "300"), opDel(1, 0, "aaa", "70"), opDel(0, 1, "aaa", "500")}
+			cfg := world.DefaultConfig()
+			cfg.Assets = append(cfg.Assets, world.AssetCfg{Denom: "ccc", Weight: "1", Min: "0", Max: "5", TakeRate: "0", StartOffset: 1000 * U})
+			cfg.DelFunds["ccc"] = "1000000000000"
 			user := func(n *engine.Node) []world.Op {
 				var ops []world.Op
 				ops = append(ops,
@@ -172,17 +182,17 @@ func init() {
 			al := Alpha{SlashVals: []int{0, 1, 2}, SlashF: fr, BlockDts: dts(3), Extra: user}
 			mk := func(name string, seeds [][]world.Op, budgets []int, depth int) *engine.Scenario {
 				return &engine.Scenario{
-					Property: "C06", Name: name, Cfg: world.DefaultConfig(), Stores: world.ModuleStores,
+					Property: "C06", Name: name, Cfg: cfg, Stores: world.ModuleStores,
 					Seeds: seeds, ClassNames: classNames, Budgets: budgets, MaxDepth: depth,
 					NewRef: func(w *world.World, root *engine.Node) engine.Ref { return newPendRef() },
 					Ops:    al.Ops, Step: c06Step, SeedStep: true,
-					Required: []string{"slash.checked", "slash.validator_with_several_assets", "position.is_redelegation_destination"},
+					Required: []string{"slash.checked", "slash.validator_with_several_assets", "position.is_redelegation_destination", "slash.validator_with_warmup_asset_stake"},
 				}
 			}
 			if tier == "thorough" {
-				return []*engine.Scenario{mk("c06-slash", [][]world.Op{s1, s2, s3}, []int{3, 3, 0, 2, 0}, 7)}
+				return []*engine.Scenario{mk("c06-slash", [][]world.Op{s1, s2, s3, s4}, []int{3, 3, 0, 2, 0}, 7)}
 			}
-			return []*engine.Scenario{mk("c06-slash", [][]world.Op{s1, s2, s3}, []int{2, 2, 0, 1, 0}, 4)}
+			return []*engine.Scenario{mk("c06-slash", [][]world.Op{s1, s2, s3, s4}, []int{2, 2, 0, 1, 0}, 4)}
 		},
 		Assumptions: []string{
 			"fractions {0.01%, 1%, 5%, 1/3, 50%, 99%, 100%}; the case f=1 with the slashed validator holding every share of the asset (g undefined) is excluded from the proportionality check, staked total and custody are still checked",
